@@ -302,6 +302,71 @@ func (b *builder) decl(d *rtl.Decl, v reflect.Value) ([]byte, error) {
 	return out, nil
 }
 
+// Codec builds one value of declaration d (choices from c), compares MarshalTL with the schema's byte layout and
+// decodes the reference bytes back. longLen >= 0 forces the length of the first byte string.
+func (e *env) Codec(c *enum.Ctx, d *rtl.Decl, longLen int) (reflect.Value, []byte, bool) {
+	t := e.typeOfConstructor(d)
+	boxed := false
+	if t == nil {
+		// a constructor of a multi-constructor type: the Go binding is the boxed sum type
+		if st := e.goType[rtl.CamelKey(d.Result)]; st != nil && !d.Func {
+			t, boxed = st, true
+		} else if strings.HasPrefix(d.Name, "adnl.message.") {
+			c.Skip() // framed by hand in client.go; checked through the request methods
+			return reflect.Value{}, nil, false
+		} else {
+			c.Fail("no-go-type:"+d.Name, "schema declaration %s has no Go type", d.Name)
+			return reflect.Value{}, nil, false
+		}
+	}
+	v := reflect.New(t).Elem()
+	b := &builder{e: e, c: c, longLen: longLen}
+	var want []byte
+	var err error
+	if boxed {
+		fv, ok := fieldByKey(v, d.Name)
+		if !ok {
+			c.Fail("binding-shape:"+d.Name, "sum type %v has no field for %s", t, d.Name)
+			return v, nil, false
+		}
+		v.FieldByName("SumType").SetString(fieldNameByKey(t, d.Name))
+		want, err = b.decl(d, fv)
+		want = append(rtl.U32(d.ID), want...)
+	} else {
+		want, err = b.decl(d, v)
+	}
+	if err != nil {
+		c.Fail("binding-shape:"+d.Name, "%v", err)
+		return v, nil, false
+	}
+	if c.Dry() {
+		return v, want, false
+	}
+	got, err := marshalTL(v)
+	if err != nil {
+		c.Fail("marshal-error:"+d.Name, "MarshalTL: %v", err)
+		return v, want, false
+	}
+	if !bytes.Equal(got, want) {
+		c.Fail("marshal-bytes:"+d.Name, "MarshalTL of %s gives %s, schema prescribes %s", d.Name, short(got), short(want))
+		return v, want, false
+	}
+	back := reflect.New(t)
+	rd := bytes.NewReader(want)
+	if err := tl.Unmarshal(rd, back.Interface()); err != nil {
+		c.Fail("unmarshal-error:"+d.Name, "UnmarshalTL of the schema encoding fails: %v", err)
+		return v, want, false
+	}
+	if rd.Len() != 0 {
+		c.Fail("unmarshal-leftover:"+d.Name, "UnmarshalTL left %d bytes unread", rd.Len())
+	}
+	if diff := gen.Equal(v, back.Elem()); diff != "" {
+		c.Fail("unmarshal-value:"+d.Name, "UnmarshalTL(schema bytes) differs from the value at %s", diff)
+		return v, want, false
+	}
+	return v, want, true
+}
+
 func marshalTL(v reflect.Value) ([]byte, error) {
 	if m, ok := v.Interface().(tl.MarshalerTL); ok {
 		return m.MarshalTL()
@@ -331,68 +396,7 @@ func harnesses(r *fw.Run) []fw.HarnessSpec {
 	}
 	e, envErr := loadEnv(seed)
 
-	codec := func(c *enum.Ctx, d *rtl.Decl, longLen int) (reflect.Value, []byte, bool) {
-		t := e.typeOfConstructor(d)
-		boxed := false
-		if t == nil {
-			// a constructor of a multi-constructor type: the Go binding is the boxed sum type
-			if st := e.goType[rtl.CamelKey(d.Result)]; st != nil && !d.Func {
-				t, boxed = st, true
-			} else if strings.HasPrefix(d.Name, "adnl.message.") {
-				c.Skip() // framed by hand in client.go; checked through the request methods
-				return reflect.Value{}, nil, false
-			} else {
-				c.Fail("no-go-type:"+d.Name, "schema declaration %s has no Go type", d.Name)
-				return reflect.Value{}, nil, false
-			}
-		}
-		v := reflect.New(t).Elem()
-		b := &builder{e: e, c: c, longLen: longLen}
-		var want []byte
-		var err error
-		if boxed {
-			fv, ok := fieldByKey(v, d.Name)
-			if !ok {
-				c.Fail("binding-shape:"+d.Name, "sum type %v has no field for %s", t, d.Name)
-				return v, nil, false
-			}
-			v.FieldByName("SumType").SetString(fieldNameByKey(t, d.Name))
-			want, err = b.decl(d, fv)
-			want = append(rtl.U32(d.ID), want...)
-		} else {
-			want, err = b.decl(d, v)
-		}
-		if err != nil {
-			c.Fail("binding-shape:"+d.Name, "%v", err)
-			return v, nil, false
-		}
-		if c.Dry() {
-			return v, want, false
-		}
-		got, err := marshalTL(v)
-		if err != nil {
-			c.Fail("marshal-error:"+d.Name, "MarshalTL: %v", err)
-			return v, want, false
-		}
-		if !bytes.Equal(got, want) {
-			c.Fail("marshal-bytes:"+d.Name, "MarshalTL of %s gives %s, schema prescribes %s", d.Name, short(got), short(want))
-			return v, want, false
-		}
-		back := reflect.New(t)
-		rd := bytes.NewReader(want)
-		if err := tl.Unmarshal(rd, back.Interface()); err != nil {
-			c.Fail("unmarshal-error:"+d.Name, "UnmarshalTL of the schema encoding fails: %v", err)
-			return v, want, false
-		}
-		if rd.Len() != 0 {
-			c.Fail("unmarshal-leftover:"+d.Name, "UnmarshalTL left %d bytes unread", rd.Len())
-		}
-		if diff := gen.Equal(v, back.Elem()); diff != "" {
-			c.Fail("unmarshal-value:"+d.Name, "UnmarshalTL(schema bytes) differs from the value at %s", diff)
-			return v, want, false
-		}
-		return v, want, true
-	}
+	codec := e.Codec
 
 	add("declarations-codec", r.Pick(1, 2), func(c *enum.Ctx) {
 		if envErr != nil {
@@ -905,3 +909,31 @@ func scanMarks(e *env, d *rtl.Decl, body []byte) []Mark {
 	walkDecl(d)
 	return marks
 }
+
+// NewEnvFrom builds an environment from any schema text and Go bindings (Go type name -> type); used by C09 for generated code.
+func NewEnvFrom(schema string, types map[string]reflect.Type, seed int) (*Env, error) {
+	sc, err := rtl.Parse(schema)
+	if err != nil {
+		return nil, err
+	}
+	e := &env{schema: sc, goType: map[string]reflect.Type{}, seed: seed}
+	for name, t := range types {
+		e.goType[rtl.CamelKey(name)] = t
+	}
+	return e, nil
+}
+
+// Schema returns the parsed schema.
+func (e *env) Schema() *rtl.Schema { return e.schema }
+
+// BuildDecl fills v (a struct value of the declaration's Go type) with one value chosen through c and returns the
+// reference encoding of its fields (without constructor id).
+func (e *env) BuildDecl(c *enum.Ctx, d *rtl.Decl, v reflect.Value) ([]byte, error) {
+	return (&builder{e: e, c: c, longLen: -1}).decl(d, v)
+}
+
+// FieldByKey / FieldNameByKey match schema names with Go field names.
+func FieldByKey(v reflect.Value, name string) (reflect.Value, bool) { return fieldByKey(v, name) }
+func FieldNameByKey(t reflect.Type, name string) string             { return fieldNameByKey(t, name) }
+func Short(b []byte) string                                         { return short(b) }
+func Addressable(v reflect.Value) reflect.Value                     { return addressable(v) }
